@@ -685,3 +685,108 @@ func onlyFormatted(r ssa.Instruction, depth int) bool {
 	}
 	return false
 }
+
+// globalWhere returns the name ("algorithms") of the first package-level variable of the package whose type satisfies pred;
+// unexported variables are identified by what they are, never by how they are called.
+func (w *World) globalWhere(rel string, pred func(types.Type) bool) string {
+	p := w.Pkg(rel)
+	if p == nil {
+		return "?"
+	}
+	for _, n := range p.Pkg.Scope().Names() {
+		if v, ok := p.Pkg.Scope().Lookup(n).(*types.Var); ok && pred(v.Type()) {
+			return v.Name()
+		}
+	}
+	return "?"
+}
+
+// isHashDigestMap: map[crypto.Hash]digest.Algorithm
+func isHashDigestMap(t types.Type) bool {
+	m, ok := t.Underlying().(*types.Map)
+	return ok && m.Key().String() == "crypto.Hash" && strings.HasSuffix(m.Elem().String(), "go-digest.Algorithm")
+}
+
+// errorGlobalsReturnedBy: the package-level error variables a function may return as its error result (sentinels).
+func errorGlobalsReturnedBy(w *World, fn *ssa.Function) []string {
+	var out []string
+	for _, f := range w.moduleCallees(fn) {
+		for _, b := range f.Blocks {
+			if r, ok := blockTerm(b).(*ssa.Return); ok && len(r.Results) > 0 {
+				d := desc(r.Results[len(r.Results)-1])
+				if strings.HasPrefix(d, "global:") {
+					out = append(out, d)
+				}
+			}
+		}
+	}
+	return uniq(out)
+}
+
+// verifierTypeName: the (abbreviated) name of the product struct type implementing notation.Verifier.
+func (w *World) verifierTypeName() string {
+	for _, fn := range w.implementers("", "Verifier", "Verify") {
+		if fn.Signature.Recv() != nil {
+			return namedOf(fn.Signature.Recv().Type())
+		}
+	}
+	return "?"
+}
+
+// freshDecodeTarget: the value json.Unmarshal decodes into is a local variable that nothing has written before the call
+// (json.Unmarshal keeps every member the input omits: decoding over a filled struct merges the two).
+func freshDecodeTarget(fi *FnInfo, call *ssa.Call) (bool, string) {
+	tgt := unwrap(call.Call.Args[1])
+	al, ok := tgt.(*ssa.Alloc)
+	if !ok {
+		return false, "the decode target " + desc(tgt) + " is not a local variable"
+	}
+	before := func(in ssa.Instruction) bool {
+		if in.Block() == call.Block() {
+			return instrIndex(in) < instrIndex(call)
+		}
+		return fi.reachHit([]state{{in.Block().Index, 0, -1}}, nil, blocksOf(call))
+	}
+	var walk func(addr ssa.Value, depth int) string
+	walk = func(addr ssa.Value, depth int) string {
+		if depth > 4 || addr.Referrers() == nil {
+			return ""
+		}
+		for _, r := range *addr.Referrers() {
+			switch x := r.(type) {
+			case *ssa.Store:
+				if x.Addr == addr && before(x) {
+					if k, isK := x.Val.(*ssa.Const); isK && k.Value == nil {
+						continue // zero value
+					}
+					return "it is written at " + fi.W.InstrPos(x) + " before the decode"
+				}
+			case *ssa.FieldAddr:
+				if why := walk(x, depth+1); why != "" {
+					return why
+				}
+			case *ssa.IndexAddr:
+				if why := walk(x, depth+1); why != "" {
+					return why
+				}
+			case *ssa.MakeInterface:
+				for _, rr := range *x.Referrers() {
+					if cc, ok := rr.(ssa.CallInstruction); ok && cc != ssa.CallInstruction(call) && before(cc.(ssa.Instruction)) && !isFormattingCall(cc) {
+						if n := calleeName(cc); n != "encoding/json.Marshal" {
+							return "it is handed to " + n + " before the decode"
+						}
+					}
+				}
+			case ssa.CallInstruction:
+				if x != ssa.CallInstruction(call) && before(x.(ssa.Instruction)) && !isFormattingCall(x) {
+					return "it is handed to " + calleeName(x) + " before the decode"
+				}
+			}
+		}
+		return ""
+	}
+	if why := walk(al, 0); why != "" {
+		return false, "the decode target " + desc(al) + " is not fresh: " + why
+	}
+	return true, ""
+}
